@@ -144,8 +144,8 @@ CLAIMED.update({
     "C04": (
         "artefact agreement: an independent Folang tokenizer/segmenter compares every checked-in (source, generated) pair — file sets, ordered declaration tables, per-definition literal sequences and construct counts — plus gofmt idempotence, README/pkg_all.foi recipe evaluation on the checked-in files",
         "The fixed point itself (build, run, compare bytes; generation 2) is an execution and is NOT decided. Decided is a necessary condition no test looks at: all 34 pairs agree in their ordered declarations (funcs with arity, structs with fields, union interface/methods/cases/constructors) and all 457 definitions agree in literal values and if/match/not/pipe/<>/&&/|| counts; "
-        "README.md and pkg_all.foi are what their recipes produce from the checked-in files; the one declaration the compiler adds by itself (import of frt for unions with payload cases) is mirrored in the expected tables and its closed forms are pinned. Catches one-sided edits of constants, declarations and counted constructs.",
-        "Does not catch edits of grouping, comparison operators, argument order or identifiers on one side only, nor a compiler change whose regenerated output was only partly checked in (one seeded variant of that kind is documented as undetected).",
+        "README.md and pkg_all.foi are what their recipes produce from the checked-in files; the one declaration the compiler adds by itself (import of frt for unions with payload cases) is mirrored in the expected tables and its closed forms are pinned. Catches one-sided edits of constants, declarations, counted constructs, referenced functions and — through the ordered skeleton — operands, argument order, locals, fields and operators.",
+        "Does not catch edits of grouping (parentheses) or type annotations on one side only, nor a compiler change whose regenerated output was only partly checked in (two seeded variants of that kind are documented as undetected).",
         "DESIGN.md §3 C04",
     ),
 })
@@ -183,14 +183,16 @@ CLAIMED.update({
 Z = ("Rule %s.z is change detection, not a semantic rule: the %s have the reviewed normal forms (digest table); a changed digest is reported as undecided "
      "('changed, no rule says whether the property survives'), which also fires on a behaviour-preserving restructuring of such a function (not on renaming, rewording, helper extraction or reordering).")
 EXTRA_NOTE = {
-    "C02": Z % ("C02", "68 compiler functions that build or unify types"),
-    "C03": Z % ("C03", "29 compiler functions that write emitted text"),
-    "C06": Z % ("C06", "41 compiler functions that read a column, move the offside stack or skip line ends"),
-    "C07": Z % ("C07", "49 compiler functions that read or write a scope, the type-definition context or a global dictionary"),
+    "C02": "Rule (i) imports the scope discipline (PAIR incl. PAIR.own/PAIR.tparam) as a necessary condition: a leaked binder unifies the types of two variables. " + Z % ("C02", "68 compiler functions that build or unify types"),
+    "C03": "Rule (f): the Tparams list of every declaration value is the declared list (explicit type arguments bind by position). " + Z % ("C03", "29 compiler functions that write emitted text"),
+    "C06": "Rule (j): the state produced by consuming `=`, `with` or an expression-level `->` goes straight to psSkipEOL (14 sites, one frozen exception). " + Z % ("C06", "41 compiler functions that read a column, move the offside stack or skip line ends"),
+    "C07": "PAIR.own (binders of an expression sit at depth >= 1 relative to the nearest enclosing entry of the expression parser) and PAIR.tparam (type-parameter names never land in the root scope) were added after seeded variants; the pin of transpileOne masks the written content (decided by C16.b/C05.f). " + Z % ("C07", "49 compiler functions that read or write a scope, the type-definition context or a global dictionary"),
     "C08": Z % ("C08", "10 compiler functions that touch the operator table or build a binary-operator node"),
-    "C09": Z % ("C09", "13 compiler functions between a match expression and the exhaustiveness diagnostic"),
+    "C09": "Rule (h): every pass that rebuilds a union's case list hands on an element-wise image of it. " + Z % ("C09", "13 compiler functions between a match expression and the exhaustiveness diagnostic"),
     "C15": Z % ("C15", "33 compiler functions that construct or print a type expression"),
-    "C04": "Rule (g) — every file fc reads is a sequence of well-formed top-level items on the checker's own token stream (block comments end at the first */ as in fc's lexer; no stray text in column 0, no stray */, package_info bodies are declaration lines) — and rule (c2) — referenced functions and union cases per definition agree — were added after seeded variants.",
+    "C04": "Rule (c3): the ordered skeleton of every definition (identifiers outside type positions, operators, literals, if/match/not/pipe) agrees between source and generated Go, the compiler's own additions set aside; it sees operands, argument order, locals, fields and operators edited on one side only (grouping and type annotations are still not compared). Rule (g) — every file fc reads is a sequence of well-formed top-level items on the checker's own token stream (block comments end at the first */ as in fc's lexer; no stray text in column 0, no stray */, package_info bodies are declaration lines) — and rule (c2) — referenced functions and union cases per definition agree — were added after seeded variants.",
+    "C05": "Rule (f), added after a seeded variant: the content handed to sys.WriteFile mentions a path parameter only inside sys.ReadFile(.) or filepath.Base(.), so the same files under another path spelling or working directory give the same bytes.",
+    "C16": "Rule (b) accepts the complete translation or an extension of it (AppendHead/AppendTail/+). Rule (h), added after a seeded variant: a String/Error/GoString/Format method never hands its own receiver to a formatter (unbounded recursion ends in a stack overflow, not a diagnostic).",
     "C13": "Correct bodies outside the idioms that a seed or benign variant showed (explicit range guards, slices.IndexFunc/ContainsFunc scans) are listed as accepted alternatives per function.",
     "C14": "Rule (e): no library type declares String/Error/Format/GoString, so %v of a library value is the default rendering the specification terms assume.",
 }
